@@ -134,6 +134,14 @@ TreeFaults ==
                [ok |-> FALSE, mentions |-> <<"home">>, file |-> "home", line |-> n + 5], <<>>, "page-parse") : n \in 0..3, f \in ParseFaults}
 \cup {PathCase(<<FileRec("components/c", Lines(CompLines(n, f)), ""), FileRec("home", "x\n@component(\"~c\", {n: 1})", "")>>,
                [ok |-> FALSE, mentions |-> <<"components/c">>, file |-> "components/c", line |-> n + 1], <<>>, "component-parse") : n \in 0..3, f \in ParseFaults}
+\* the same with pages whose names sort before and after the component's: the fault is in the component's file whichever
+\* file is read first
+\cup {PathCase(<<FileRec("components/c", Lines(CompLines(n, f)), ""), FileRec(pg, "x\n@component(\"~c\", {n: 1})", ""), FileRec("zz", "plain", "")>>,
+               [ok |-> FALSE, mentions |-> <<"components/c">>, file |-> "components/c", line |-> n + 1], <<>>, "component-parse") :
+        n \in {0, 2}, f \in ParseFaults, pg \in {"about", "a/first", "index", "zebra"}}
+\cup {PathCase(<<FileRec("layouts/main", Lines(LayLines(n, f)), ""), FileRec(pg, Lines(PageLines(1, "ok")), "")>>,
+               [ok |-> FALSE, mentions |-> <<"layouts/main">>, file |-> "layouts/main", line |-> n + 1], <<>>, "layout-parse") :
+        n \in {0, 2}, f \in ParseFaults, pg \in {"about", "zebra"}}
 \cup {PathCase(<<FileRec("layouts/main", Lines(GoodLay), ""), FileRec("home", Lines(PageLines(n, f)), "")>>,
                [ok |-> TRUE, names |-> <<"home">>],
                <<[op |-> "String", name |-> "home", data |-> <<>>, expect |-> [kind |-> "err", why |-> "fault", line |-> n + 5], path |-> "home"]>>, "page-runtime") :
